@@ -226,6 +226,8 @@ def exec (idna : Idna) (st : St) (toks : List String) : St × String :=
         let j := (args.getD 0 "0").toNat!
         { st' with params := st'.params.set! j { list := [], isSorted := st'.params[j]!.isSorted } }
       else st'
+    -- results read from the params object of an invalid URL are not compared (see `spDump`)
+    let r := if o'.url.isNone then "?" else r
     (st', s!"r={r} {dumpImpl idna o'.url}{spDump o'} ## ~")
   | "psp" :: slot :: op :: args =>
     let k := slot.toNat!
